@@ -473,21 +473,48 @@ def gen_seq(rng, idx: int, n=(2, 8)) -> dict:
         # a task that closes sys.stdout while it is captured; last build of the process (it may wreck the interpreter's streams),
         # never with capture=no (there it would close the caller's own stream)
         builds.append({"sub": "closer", "kw": {"capture": rng.choice(["sys", "tee-sys", "fd"]), "verbose": 1, "force": True}})
-    return {"idx": idx, "builds": builds, "hashseed": rng.randrange(0, 1000)}
+    return {"idx": idx, "builds": builds, "hashseed": rng.randrange(0, 1000), "tty": rng.random() < 0.25}
 
 
-def _run_worker(spec: dict, d: Path, tag: str, hashseed: int) -> dict:
+def _run_worker(spec: dict, d: Path, tag: str, hashseed: int, tty: bool = False) -> dict:
     sp = d / f"spec_{tag}.json"
     rp = d / f"res_{tag}.json"
     sp.write_text(json.dumps(spec))
     env = dict(os.environ, PYTHONHASHSEED=str(hashseed), PYTHONDONTWRITEBYTECODE="1", PYTHONUTF8="1", COLUMNS="120")
-    p = subprocess.Popen([common.PY, str(SEQ_WORKER), str(sp), str(rp)], stdin=subprocess.PIPE, stdout=subprocess.PIPE,
-                         stderr=subprocess.PIPE, env=env, cwd=str(d))
-    try:
-        p.communicate(timeout=600)   # stdin stays an open pipe until the worker exits
-    except subprocess.TimeoutExpired:
-        p.kill()
-        raise common.InfraError("C15 sequence worker timed out") from None
+    if tty:
+        # the process is attached to a (pseudo) terminal: rich draws the live table and proxies sys.stdout / sys.stderr meanwhile
+        import pty
+        import threading
+        master, slave = pty.openpty()
+        p = subprocess.Popen([common.PY, str(SEQ_WORKER), str(sp), str(rp)], stdin=slave, stdout=slave, stderr=slave, env=env,
+                             cwd=str(d), close_fds=True)
+        os.close(slave)
+
+        def drain():
+            while True:
+                try:
+                    if not os.read(master, 65536):
+                        break
+                except OSError:
+                    break
+        t = threading.Thread(target=drain, daemon=True)
+        t.start()
+        try:
+            p.wait(timeout=600)
+        except subprocess.TimeoutExpired:
+            p.kill()
+            raise common.InfraError("C15 sequence worker (pty) timed out") from None
+        finally:
+            t.join(timeout=5)
+            os.close(master)
+    else:
+        p = subprocess.Popen([common.PY, str(SEQ_WORKER), str(sp), str(rp)], stdin=subprocess.PIPE, stdout=subprocess.PIPE,
+                             stderr=subprocess.PIPE, env=env, cwd=str(d))
+        try:
+            p.communicate(timeout=600)   # stdin stays an open pipe until the worker exits
+        except subprocess.TimeoutExpired:
+            p.kill()
+            raise common.InfraError("C15 sequence worker timed out") from None
     if not rp.exists():
         raise common.InfraError(f"C15 sequence worker produced no result (rc={p.returncode})")
     res = json.loads(rp.read_text())
@@ -500,12 +527,12 @@ def run_seq(seq: dict, fresh: bool = True) -> dict:
     d = common.scratch_dir("c15")
     try:
         write_seq_project(d / "A")
-        one = _run_worker({"root": str(d / "A"), "builds": seq["builds"]}, d, "seq", seq["hashseed"])
+        one = _run_worker({"root": str(d / "A"), "builds": seq["builds"]}, d, "seq", seq["hashseed"], tty=bool(seq.get("tty")))
         out = {"inproc": one, "fresh": []}
         if fresh:
             write_seq_project(d / "B")
             for k, b in enumerate(seq["builds"]):
-                r = _run_worker({"root": str(d / "B"), "builds": [b]}, d, f"f{k}", seq["hashseed"])
+                r = _run_worker({"root": str(d / "B"), "builds": [b]}, d, f"f{k}", seq["hashseed"], tty=bool(seq.get("tty")))
                 out["fresh"].append(r["builds"][0])
         return out
     finally:
@@ -654,7 +681,7 @@ def model_c15(drv, seq: dict, obs: dict) -> list:
 
 
 def canon_c15(seq: dict) -> list:
-    return [[b["sub"], sorted(b["kw"].items())] for b in seq["builds"]]
+    return [[b["sub"], sorted(b["kw"].items())] for b in seq["builds"]] + (["tty"] if seq.get("tty") else [])
 
 
 def corpus_c15() -> list:
@@ -665,6 +692,8 @@ def corpus_c15() -> list:
         return {"sub": sub, "kw": kw}
     return [
         {"idx": -1, "hashseed": 1, "builds": [b("ok", force=True)] * 6},                                   # F6 witness (fixed): leak trend, stdin
+        {"idx": -8, "hashseed": 8, "tty": True, "builds": [b("ok", capture="no", force=True), b("fail", capture="no"), b("cyc", capture="no"),
+                                                            b("ok", capture="fd", force=True, verbose=2), b("badimp", capture="no")]},
         {"idx": -5, "hashseed": 5, "builds": [b("ok", capture="sys"), b("closer", capture="sys", force=True)]},
         {"idx": -6, "hashseed": 6, "builds": [b("ok", capture="tee-sys"), b("closer", capture="tee-sys", force=True)]},
         {"idx": -7, "hashseed": 7, "builds": [b("ok", capture="fd"), b("closer", capture="fd", force=True)]},
@@ -683,6 +712,7 @@ def check_c15(ctx, drv, seq, obs) -> None:
     for rec in obs["inproc"]["builds"]:
         ctx.dist[f"exit:{rec.get('exit')}"] += 1
     ctx.dist[f"len:{len(seq['builds'])}"] += 1
+    ctx.dist["terminal:pty" if seq.get("tty") else "terminal:pipes"] += 1
     sample = {"builds": canon_c15(seq)[:4], "exits": [r.get("exit") for r in obs["inproc"]["builds"]],
               "fd_counts": [len(r["after"]["fds"]) for r in obs["inproc"]["builds"]]}
     ctx.case(canon_c15(seq), len(seq["builds"]) >= 2 and any(len(r.get("reports", [])) > 0 for r in obs["inproc"]["builds"]), sample)
